@@ -239,6 +239,13 @@ func executeProcess(p *Process) {
 	if p.HasTerminated() || p.HasCancelled() ||
 		/*p.Parent.HasTerminated() ||*/ p.Parent.HasCancelled() {
 		destroyed = true
+		if p.Name.String() == "bg" && !p.IsFork {
+			// destroyProcess doesn't report the termination of `bg` because
+			// `bg` does that itself as soon as it has forked. This one has
+			// been skipped or cancelled before it ran, so nobody has.
+			go p.Done()
+			p.WaitForTermination <- false
+		}
 		destroyProcess(p)
 		return
 	}
